@@ -156,13 +156,29 @@ def concretise(rec: dict) -> dict:
     if rec.get("vlimit"):
         cfg.append(f"render_variant_limit = {rec['vlimit']}")
     byte_limit = char_limit = None
+    for f in files:
+        f["byte_limit"] = 0
     if rec["limkind"] != "none":
         f0 = files[0]
         n = f0["nbytes"] if rec["limkind"] == "byte" else f0["nchars"]
         size = rec["files"][0]["size"]
         lim = {"under": n + 1, "at": n, "over": n - 1}[size]
-        if rec["limkind"] == "byte":
+        limsrc = rec.get("limsrc", "root")
+        if rec["limkind"] == "byte" and limsrc != "root":
+            # the effective limit of file 1 comes from the .sqlfluff in its own directory; the root config holds a
+            # limit on the other side of the file's size (every other file keeps the root's)
+            root_lim = n + 1000 if limsrc == "nested_lower" else n - 10
+            assert all(g["nbytes"] < root_lim for g in files[1:]), "second file must stay under the root limit"
             byte_limit = lim
+            cfg.append(f"large_file_skip_byte_limit = {root_lim}")
+            f0["nested_cfg"] = (f0["nested_cfg"] or "[sqlfluff]\n") + f"large_file_skip_byte_limit = {lim}\n"
+            f0["byte_limit"] = lim
+            for g in files[1:]:
+                g["byte_limit"] = root_lim
+        elif rec["limkind"] == "byte":
+            byte_limit = lim
+            for g in files:
+                g["byte_limit"] = lim
             cfg.append(f"large_file_skip_byte_limit = {lim}")
         else:
             char_limit = lim
